@@ -25,6 +25,12 @@
 //! Batch TYPE: every batch is Logged, Unlogged or COUNTER by (seed, task, i) - plain Session and CachingSession alike,
 //! prepared / unprepared-with-values / mixed statements, with and without an explicit timestamp.
 //!
+//! `pg=<k>` (default 1): every SELECT is answered in k PAGES (page j of a statement returns the paging state `[j+1]`
+//! unless it is the last), so the pagers (query_iter with and without values, execute_iter, CachingSession::execute_iter)
+//! send k page requests per execution and the three `*_single_page` entry points (and CachingSession::
+//! execute_single_page) are called in a loop with the paging state of the previous answer - requests 2..k carry a
+//! NON-START paging state. The oracle below judges the frames of ALL pages.
+//!
 //! `via=caching`: the same writes go through a `CachingSession` (cache of 2 statements, so it keeps re-preparing):
 //! `execute_unpaged(text, values)`, `execute_iter(SELECT text, values)`, and `batch` with an UNPREPARED statement
 //! with values (-> `prepare_batch`), with a prepared one, and with both mixed. Every write also sets its own
@@ -52,13 +58,14 @@ pub fn generate(rng: &mut Rng, tier: Tier, emit: &mut dyn FnMut(String)) {
     let n_cases = if tier == Tier::Quick { 24 } else { 240 };
     for _ in 0..n_cases {
         emit(format!(
-            "e2e timestamp n={} sh={} threads={} tasks={} per={} explicit={} mix=2 seed={}",
+            "e2e timestamp n={} sh={} threads={} tasks={} per={} explicit={} mix=2 pg={} seed={}",
             1 + rng.below(3),
             *rng.pick(&[0u64, 0, 2, 4]),
             *rng.pick(&[1u64, 2, 4, 4]),
             1 + rng.below(8),
             12 + rng.below(if tier == Tier::Quick { 14 } else { 60 }),
             *rng.pick(&[0u64, 1, 3, 5]),
+            2 + rng.below(2),
             rng.below(1 << 32)
         ));
     }
@@ -72,7 +79,7 @@ pub fn generate(rng: &mut Rng, tier: Tier, emit: &mut dyn FnMut(String)) {
             _ => (2 + rng.below(4), 3 + rng.below(5), rng.below(2)),
         };
         emit(format!(
-            "e2e timestamp n={} sh={} threads={} tasks={} per={} explicit={} gen={} evict={} ov={} spec={} mix=2 seed={}",
+            "e2e timestamp n={} sh={} threads={} tasks={} per={} explicit={} gen={} evict={} ov={} spec={} mix=2 pg={} seed={}",
             1 + rng.below(3),
             *rng.pick(&[0u64, 0, 2]),
             *rng.pick(&[1u64, 2, 4]),
@@ -83,6 +90,7 @@ pub fn generate(rng: &mut Rng, tier: Tier, emit: &mut dyn FnMut(String)) {
             evict,
             ov,
             spec,
+            1 + rng.below(3),
             rng.below(1 << 32)
         ));
     }
@@ -95,7 +103,7 @@ pub fn generate(rng: &mut Rng, tier: Tier, emit: &mut dyn FnMut(String)) {
             _ => (0, 3 + rng.below(4)),
         };
         emit(format!(
-            "e2e timestamp n={} sh={} threads={} tasks={} per={} explicit={} gen={} evict={} ov={} spec=0 via=caching seed={}",
+            "e2e timestamp n={} sh={} threads={} tasks={} per={} explicit={} gen={} evict={} ov={} spec=0 via=caching pg={} seed={}",
             1 + rng.below(3),
             *rng.pick(&[0u64, 0, 2]),
             *rng.pick(&[1u64, 2, 4]),
@@ -105,6 +113,7 @@ pub fn generate(rng: &mut Rng, tier: Tier, emit: &mut dyn FnMut(String)) {
             rng.pick(&["mono", "script"]),
             evict,
             ov,
+            1 + rng.below(3),
             rng.below(1 << 32)
         ));
     }
@@ -229,6 +238,15 @@ pub fn run(words: &[&str], ctx: &mut Ctx) -> String {
     }
     let caching = via == "caching";
     let Some(mix) = p.num_or("mix", 1) else { return "bad-case".into() };
+    let Some(pg) = p.num_or("pg", 1) else { return "bad-case".into() };
+    if !(1..=16).contains(&pg) {
+        return "bad-case".into();
+    }
+    // page j of a SELECT (request paging state: none = 0, `[j]` = j) is followed by page j+1 unless it is the last
+    let next_state = move |ps: &Option<Vec<u8>>| -> Option<Vec<u8>> {
+        let page = ps.as_ref().map_or(0, |b| b.first().copied().unwrap_or(0) as u64);
+        (page + 1 < pg).then(|| vec![(page + 1) as u8])
+    };
     if !(1..=2).contains(&mix) {
         return "bad-case".into();
     }
@@ -282,12 +300,12 @@ pub fn run(words: &[&str], ctx: &mut Ctx) -> String {
         }
         if let Parsed::Execute { id, params, .. } = &r.parsed {
             if *id == stmt_id(SELECT) {
-                return vec![Act::Respond(crate::mocknode::RESP_RESULT, rows_body(&row_specs(), !params.skip_metadata, None, &[]))];
+                return vec![Act::Respond(crate::mocknode::RESP_RESULT, rows_body(&row_specs(), !params.skip_metadata, next_state(&params.paging_state).as_deref(), &[]))];
             }
         }
-        if let Parsed::Query { text, .. } = &r.parsed {
+        if let Parsed::Query { text, params } = &r.parsed {
             if text.starts_with("SELECT pk, v FROM ks.t WHERE pk = 0x") {
-                return vec![Act::Respond(crate::mocknode::RESP_RESULT, rows_body(&row_specs(), true, None, &[]))];
+                return vec![Act::Respond(crate::mocknode::RESP_RESULT, rows_body(&row_specs(), true, next_state(&params.paging_state).as_deref(), &[]))];
             }
         }
         vec![act_void()]
@@ -424,11 +442,46 @@ pub fn run(words: &[&str], ctx: &mut Ctx) -> String {
                             6 => drain(session.query_iter(configured_stmt(SELECT), (key,)).await).await,
                             7 => drain(session.query_iter(configured_stmt(&text_sel_of(task, i)), ()).await).await,
                             8 => drain(session.execute_iter(configured_sel(), (key,)).await).await,
-                            9 => session.execute_single_page(&configured_ps(), (key, 0i32), start()).await.is_ok(),
-                            10 => session.query_single_page(configured_stmt(&text_of(task, i)), (), start()).await.is_ok(),
-                            _ => session.query_single_page(configured_stmt(INSERT), (key, 0i32), start()).await.is_ok(),
+                            // the three single-page entry points, called the way a caller pages by hand: again with the
+                            // paging state of the previous answer until NoMorePages (requests 2.. carry a non-start state)
+                            9 => {
+                                let (h, mut state) = (configured_sel(), start());
+                                loop {
+                                    match session.execute_single_page(&h, (key.clone(),), state).await {
+                                        Ok((_, resp)) => match resp.into_paging_control_flow() {
+                                            std::ops::ControlFlow::Break(()) => break true,
+                                            std::ops::ControlFlow::Continue(s) => state = s,
+                                        },
+                                        Err(_) => break false,
+                                    }
+                                }
+                            }
+                            10 => {
+                                let (st, mut state) = (configured_stmt(&text_sel_of(task, i)), start());
+                                loop {
+                                    match session.query_single_page(st.clone(), (), state).await {
+                                        Ok((_, resp)) => match resp.into_paging_control_flow() {
+                                            std::ops::ControlFlow::Break(()) => break true,
+                                            std::ops::ControlFlow::Continue(s) => state = s,
+                                        },
+                                        Err(_) => break false,
+                                    }
+                                }
+                            }
+                            _ => {
+                                let (st, mut state) = (configured_stmt(SELECT), start());
+                                loop {
+                                    match session.query_single_page(st.clone(), (key.clone(),), state).await {
+                                        Ok((_, resp)) => match resp.into_paging_control_flow() {
+                                            std::ops::ControlFlow::Break(()) => break true,
+                                            std::ops::ControlFlow::Continue(s) => state = s,
+                                        },
+                                        Err(_) => break false,
+                                    }
+                                }
+                            }
                         },
-                        Via::Caching(cs) => match (task + i) % 5 {
+                        Via::Caching(cs) => match (task + i) % 6 {
                             0 => cs.execute_unpaged(configured_stmt(INSERT), (key, 0i32)).await.is_ok(),
                             1 => match cs.execute_iter(configured_stmt(SELECT), (key,)).await {
                                 Ok(pager) => match pager.rows_stream::<(Vec<u8>, i32)>() {
@@ -446,6 +499,19 @@ pub fn run(words: &[&str], ctx: &mut Ctx) -> String {
                             // an UNPREPARED statement with values: CachingSession::batch goes through prepare_batch
                             2 => cs.batch(&configured_batch(vec![Statement::new(INSERT).into()]), ((key, 0i32),)).await.is_ok(),
                             3 => cs.batch(&configured_batch(vec![ps.clone().into()]), ((key, 0i32),)).await.is_ok(),
+                            // CachingSession::execute_single_page, paged by hand
+                            5 => {
+                                let (st, mut state) = (configured_stmt(SELECT), start());
+                                loop {
+                                    match cs.execute_single_page(st.clone(), (key.clone(),), state).await {
+                                        Ok((_, resp)) => match resp.into_paging_control_flow() {
+                                            std::ops::ControlFlow::Break(()) => break true,
+                                            std::ops::ControlFlow::Continue(s) => state = s,
+                                        },
+                                        Err(_) => break false,
+                                    }
+                                }
+                            }
                             _ => cs
                                 .batch(&configured_batch(vec![ps.clone().into(), Statement::new(INSERT).into()]), ((key.clone(), 0i32), (key, 1i32)))
                                 .await
